@@ -374,6 +374,27 @@ def native_decimal_checks():
     ]
     failures = []
     n = 0
+    # values and limits with more significant digits than the decimal context's default precision (28)
+    long_cases = [("", "9999999999999999999.999999999999", True), ("", "-9999999999999999999.999999999999", True),
+                  ("0...1", "1.0000000000000000000000000001", False), ("0...1", "0.9999999999999999999999999999999", True),
+                  ("0...1", "-0.0000000000000000000000000000001", False),
+                  ("123456789012345678901234567890...", "123456789012345678901234567889.9", False),
+                  ("123456789012345678901234567890...", "123456789012345678901234567890", True)]
+    for desc, value, exp in long_cases:
+        n += 1
+        try:
+            r = ranges.DecimalRange(desc, ranges.DEFAULT_DECIMAL_RANGE_TEXT)
+            try:
+                r.validate("x", D(value))
+                got = True
+            except errors.RangeValueError:
+                got = False
+            if got != exp:
+                failures.append(dict(key="decimal-range-long-digits", what="DecimalRange(%r).validate(%s): accepted=%s expected %s" % (
+                    desc or "<default>", value, got, exp), args=dict(text=desc, value=value)))
+        except Exception as e:  # noqa
+            failures.append(dict(key="decimal-range-long-digits", what="DecimalRange(%r).validate(%s) raised %s: %s" % (
+                desc, value, type(e).__name__, e), args=dict(text=desc, value=value)))
     for text, items, lo, hi in cases:
         n += 1
         try:
